@@ -788,6 +788,12 @@ fn gen_pairs(rng: &mut Rng, count: usize, thorough: bool, ops: &[&str], helpers:
 
 /// the conversions themselves, on numeric-looking strings (compared bit for bit)
 fn conversion_cases(rng: &mut Rng, n: usize, out: &mut Vec<Case>) {
+    for c in ws_edge_chars() {
+        for t in [format!("{}1", c), format!("1{}", c), c.to_string()] {
+            out.push(helper("convert:ws-edge", "str_to_number", vec![Value::String(t.clone())]));
+            out.push(helper("convert:ws-edge", "parse_float", vec![Value::String(t)]));
+        }
+    }
     for t in grammar_edge_strings() {
         out.push(helper("convert:edge", "str_to_number", vec![Value::String(t.clone())]));
         if t.len() % 3 == 0 {
